@@ -10,10 +10,10 @@ import (
 )
 
 // VerifyFunction generates all obligations for one function under contract.
-func (eng *Engine) VerifyFunction(fn *ssa.Function, con *Contract) *Unit {
+func (eng *Engine) VerifyFunction(fn *ssa.Function, con *Contract) (u *Unit) {
 	pkgShort := strings.TrimPrefix(con.PkgPath, repoModule+"/")
 	name := pkgShort + "." + con.Key()
-	u := NewUnit(eng, name, fn.Pkg.Pkg)
+	u = NewUnit(eng, name, fn.Pkg.Pkg)
 	u.forProps = con.For
 	u.curFunc = name
 	x := &Executor{u: u}
@@ -163,11 +163,22 @@ func (x *Executor) computeFrame(con *Contract, vars map[string]Val, entry *State
 					_, isS := ty.Underlying().(*types.Struct)
 					_, isI := ty.Underlying().(*types.Interface)
 					if isS || isI {
-						comp, _ := u.fieldComp(ty, t.Name)
-						fs.whole[comp] = true
+						for _, comp := range x.wholeComps(ty, t.Name) {
+							fs.whole[comp] = true
+						}
 						continue
 					}
 				}
+			}
+			if ref, sty, ok := x.lvalRef(preEnv, t.X); ok {
+				if fieldType(u, sty, t.Name) == nil {
+					fs.errs = append(fs.errs, "no field "+t.Name+" in "+sty.String())
+					continue
+				}
+				for _, loc := range x.fieldLocs(sty, t.Name, ref) {
+					fs.targets = append(fs.targets, locTarget{comp: loc.comp, ref: loc.ref, kind: "field"})
+				}
+				continue
 			}
 			pv, err := preEnv.Eval(t.X)
 			if err != nil {
@@ -534,11 +545,11 @@ func (ss *SpecSet) lookupLemma(cur *types.Package, name string) *Lemma {
 }
 
 // VerifyLemma generates the proof obligations of a lemma (base+step when by induction).
-func (eng *Engine) VerifyLemma(lm *Lemma) *Unit {
+func (eng *Engine) VerifyLemma(lm *Lemma) (u *Unit) {
 	pkgShort := strings.TrimPrefix(lm.PkgPath, repoModule+"/")
 	name := pkgShort + "#lemma:" + lm.Name
 	pkg := eng.typesPkg(lm.PkgPath)
-	u := NewUnit(eng, name, pkg)
+	u = NewUnit(eng, name, pkg)
 	u.forProps = lm.For
 	u.curFunc = name
 	defer func() {
